@@ -72,6 +72,9 @@ _LIB = None
 _CUR = None      # the world of the running execution (the provider instance is a process-wide singleton)
 
 
+_GUARD = None
+
+
 def lib():
     global _LIB
     if _LIB is not None:
@@ -117,6 +120,9 @@ def lib():
             for m2 in MODELS:                   # and a vector of the other model is told apart by search
                 if m2 != m and pre[m].get_nns_by_vector(vec(t, m2), 1) == [i]:
                     raise RuntimeError("HARNESS: the two models are not told apart by search")
+    from vf.seams import GlobalsGuard
+    global _GUARD
+    _GUARD = GlobalsGuard([basic, cache])
     _LIB = {"Index": basic.BasicEmbeddingsIndex, "Item": IndexItem, "Cache": cache.EmbeddingsCache,
             "CacheConfig": EmbeddingsCacheConfig, "prebuilt": pre}
     return _LIB
@@ -158,6 +164,7 @@ def maker(cfg, scratch):
         global _CUR
         w = World(env, cfg)
         _CUR = w
+        _GUARD.restore()    # no library-global container carries anything over from the previous execution
         if cache:
             store_config = {}
             if cache[0] == "filesystem":
@@ -678,6 +685,13 @@ def tasks(tier):
         for m in multisets([B_A, B_B, G_EB], 2):
             for c in variants((m, ()), CACHES_TWO):
                 out.append(dict(c, granularity="iteration", max_choices=400))
+        # three batched requests with max_batch_size 1, 2 at loop-iteration granularity (two arrivals within one
+        # iteration while a new batch is being set up), deviation bound iterated within a time limit
+        for m in ((B_A, B_B, B_E), (B_A, B_A, B_B)):
+            for mbs in (1, 2):
+                out.append({"reqs": [(kd, p, 1) for kd, p in m], "mbs": mbs, "cache": None, "prewarm": [],
+                            "use_batching": True, "build": "prebuilt", "granularity": "iteration",
+                            "max_choices": 600, "dev_iter": True, "max_dev": 40, "big": True, "time_limit": 12})
     else:
         pool = [B_A, B_B, B_E, G_ABA, G_EB, G_NONE, S_A, S_E]
         for scen in scenarios(pool, 3, max_second=2):
@@ -722,6 +736,23 @@ def tasks(tier):
                         if prewarm:
                             continue
                         out.append({"reqs": reqs, "mbs": mbs, "cache": list(cache) if cache else None, "prewarm": [],
+                                    "use_batching": True, "build": "prebuilt"})
+    # ... and three requests: one index is suspended in its model call while the other index is used, and a
+    # second-round request of either index asks for a text the other one embedded meanwhile
+    pool3 = [B_A, G_ABA] if tier == "quick" else [B_A, B_E, G_ABA, S_A]
+    if not TWO_MODEL_FAMILY:
+        pool3 = []
+    for x in pool3:
+        for y in pool3:
+            for z in pool3:
+                for zwhich in (0, 1):
+                    reqs = [(x[0], x[1], 1, 0), (y[0], y[1], 1, 1), (z[0], z[1], 2, zwhich)]
+                    for cache, prewarm in CACHES_ALL:
+                        if prewarm or not cache:
+                            continue
+                        if tier == "quick" and cache[1] == "hash":
+                            continue
+                        out.append({"reqs": reqs, "mbs": 2, "cache": list(cache), "prewarm": [],
                                     "use_batching": True, "build": "prebuilt"})
     for c in out:
         c.setdefault("granularity", "quiescence")
